@@ -3,6 +3,8 @@ package main
 import (
 	"encoding/json"
 	"fmt"
+	"os"
+	"regexp"
 	"go/constant"
 	"go/token"
 	"go/types"
@@ -466,6 +468,13 @@ func flattenConcat(s string) []string {
 	return []string{s}
 }
 
+// the type name and the id as they are read from the resource: nothing is
+// applied to them on the way into the link
+var (
+	selfLinkTypeRe = regexp.MustCompile(`^\w+\.GetType\(\)\.Name$`)
+	selfLinkIDRe   = regexp.MustCompile(`^\w+\.Get\("id"\)(\.\(string\))?$`)
+)
+
 func checkC03SelfLink(p *Prog, r *Report) {
 	f := p.Fn("buildSelfLink")
 	if f == nil {
@@ -500,9 +509,9 @@ func checkC03SelfLink(p *Prog, r *Report) {
 				return "P"
 			case tok == "P-":
 				return "P-"
-			case strings.Contains(tok, "GetType()") && strings.HasSuffix(tok, ".Name"):
+			case selfLinkTypeRe.MatchString(tok):
 				return "T"
-			case strings.Contains(tok, `Get("id")`):
+			case selfLinkIDRe.MatchString(tok):
 				return "I"
 			case tok == `"/"`:
 				return "/"
@@ -522,6 +531,9 @@ func checkC03SelfLink(p *Prog, r *Report) {
 			var toks []string
 			for _, t := range flattenConcat(o.results[0].String()) {
 				c := canon(t)
+				if os.Getenv("VERIF_DEBUG") != "" {
+					fmt.Fprintf(os.Stderr, "DBG self-link tok %q -> %s\n", t, c)
+				}
 				// adjacent constants fold
 				toks = append(toks, c)
 			}
